@@ -393,6 +393,7 @@ func (n *NSQD) GetMetadata(ephemeral bool) *Metadata {
 		Version: version.Binary,
 	}
 	for _, topic := range n.topicMap {
+		verifPoint("getmetadata:topic")
 		if topic.ephemeral && !ephemeral {
 			continue
 		}
